@@ -84,3 +84,12 @@ Proof.
   apply (lockset_sound [ex_w; ex_r] D ex_tr W R 1 4 1 2 7 ex_w ex_r); try reflexivity; try lia.
   split; [reflexivity|left; reflexivity].
 Qed.
+
+(* non-vacuity of the lock-order check: the generated program nests locks (the breaker's mutex around the metrics locks,
+   the status-code lock around the histogram lock around the counters lock, ...), every lock that occurs in a pair is
+   ranked, and the check does reject a table with a cycle *)
+Example C09_lock_order_nontrivial :
+  5 <= length lock_order /\
+  forallb (fun e => existsb (Nat.eqb (fst e)) lock_rank && existsb (Nat.eqb (snd e)) lock_rank) lock_order = true /\
+  order_ok [0; 1] [(0, 1); (1, 0)] = false /\ order_ok [1; 0] [(0, 1); (1, 0)] = false.
+Proof. split; [cbn; lia|]. split; [vm_compute; reflexivity|]. split; reflexivity. Qed.
